@@ -1,6 +1,7 @@
 SPECIFICATION SimSpec
 CONSTANTS
   WorkerCpus <- J_Workers
+  LateWorkers <- J_Late
   WorkerGroup <- J_Groups
   WorkerLife <- J_Life
   MaxTicks = 0
